@@ -1084,7 +1084,7 @@ func parseKeyChordsImpl(str string, message string) (map[tui.Event]string, error
 		default:
 			runes := []rune(key)
 			if len(key) == 10 && strings.HasPrefix(lkey, "ctrl-alt-") && isAlphabet(lkey[9]) {
-				chords[tui.CtrlAltKey(rune(key[9]))] = key
+				chords[tui.CtrlAltKey(rune(lkey[9]))] = key
 			} else if len(key) == 6 && strings.HasPrefix(lkey, "ctrl-") && isAlphabet(lkey[5]) {
 				add(tui.EventType(tui.CtrlA.Int() + int(lkey[5]) - 'a'))
 			} else if len(runes) == 5 && strings.HasPrefix(lkey, "alt-") {
